@@ -80,6 +80,9 @@ type BaseNodeService struct {
 	opService                operation.OperationService
 	sigService               signature.SignatureService
 	SkipCommKeysVerification bool
+	// roundsMu serialises the read-modify-write sequences over the stored rounds: the poller
+	// handling a board message, and an API request that updates a round (finishing a re-initialisation)
+	roundsMu sync.Mutex
 }
 
 func NewNode(ctx context.Context, config *config.Config, sp *services.ServiceProvider) (NodeService, error) {
@@ -107,6 +110,9 @@ func (s *BaseNodeService) GetLogger() logger.Logger {
 }
 
 func (s *BaseNodeService) ProcessMessage(message storage.Message) error {
+	s.roundsMu.Lock()
+	defer s.roundsMu.Unlock()
+
 	if fsm.State(message.Event) == types.ReinitDKG {
 		if err := s.reinitDKG(message); err != nil {
 			return fmt.Errorf("failed to reinitDKG")
@@ -282,6 +288,9 @@ func (s *BaseNodeService) executeOperation(operation *types.Operation) error {
 		}
 	} else {
 		//for now only ReinitDKG can have the OperationProcessed event
+		// the round is read, changed and written back: not while the poller is doing the same
+		s.roundsMu.Lock()
+		defer s.roundsMu.Unlock()
 		dkgID := operation.DKGIdentifier
 		fsm, err := s.fsmService.GetFSMInstance(string(dkgID), false)
 		if err != nil {
